@@ -235,6 +235,49 @@ theorem tcp_listener_takes_the_whole_wait {g : GrpcContract} (hb : DeadlineBound
     congr 1
     omega
 
+/-! ## 5. The assumption behind "no later than the wait": the registry lock is free
+
+`shutdown_bounded` counts from the tick at which `Shutdown` has the registry lock. Counted from the *call*, the
+bound needs the stated assumption that nobody holds `mu` beyond O(1) bookkeeping (`heldUntil ≤ called`). -/
+
+/-- **shutdown_bounded_from_call.** Lock held for bookkeeping only ⇒ `proxy.Shutdown(wait)` returns no later
+than `wait` after it was *called*, and the listeners are closed at the call tick. -/
+theorem shutdown_bounded_from_call {g : GrpcContract} (h : DeadlineBounded g) (called heldUntil wait : Nat)
+    (hlock : heldUntil ≤ called) (srvs : List Server) :
+    tle (shutdownCalled g called heldUntil wait srvs) (some (called + wait)) = true ∧
+    lockAcquired called heldUntil = called := by
+  have hl : lockAcquired called heldUntil = called := by simp [lockAcquired]; omega
+  refine ⟨?_, hl⟩
+  simp only [shutdownCalled, hl]
+  exact shutdown_bounded h called wait srvs
+
+/-- Without the assumption the statement is false: somebody who keeps the lock for `d` more ticks (say a
+`CloseProxy` that drains a listener for 10 s under `mu`) delays everything by `d` — with any tcp listener
+registered `Shutdown` returns exactly `d` ticks late, and until then no listener has been closed. -/
+theorem lock_held_delays_shutdown {g : GrpcContract} (h : DeadlineBounded g) (called d wait : Nat) (hd : 0 < d)
+    (srvs : List Server) (work : List Time) (hs : Server.single { kind := .tcp, work := work } ∈ srvs) :
+    shutdownCalled g called (called + d) wait srvs = some (called + d + wait) ∧
+    tle (shutdownCalled g called (called + d) wait srvs) (some (called + wait)) = false ∧
+    (∀ p ∈ (shutdown g (lockAcquired called (called + d)) wait (srvs.map (fun s => ("", s)))).closed,
+        ∀ t, t < called + d → accepts (some p.2) t = true) := by
+  have hl : lockAcquired called (called + d) = called + d := by simp [lockAcquired]
+  have hr := tcp_listener_takes_the_whole_wait h (called + d) wait srvs work hs
+  refine ⟨by simpa [shutdownCalled, hl] using hr, ?_, ?_⟩
+  · simp only [shutdownCalled, hl, hr, tle]
+    simp; omega
+  · intro p hp t ht
+    simp only [shutdown, hl, List.mem_map] at hp
+    obtain ⟨q, _, rfl⟩ := hp
+    simp [accepts, listenersClosedAt, ht]
+
+/-- A server removed by `CloseProxy` before the shutdown no longer takes part in it. -/
+theorem closed_proxy_not_waited_for (g : GrpcContract) (t0 wait : Nat) (addr : String) (reg : Registry) :
+    ∀ p ∈ (shutdown g t0 wait (closeProxy addr reg)).returns, p.1 ≠ addr := by
+  intro p hp
+  simp only [shutdown, closeProxy, List.mem_map, List.mem_filter] at hp
+  obtain ⟨q, ⟨_, hq⟩, rfl⟩ := hp
+  simpa using hq
+
 /-! ## Non-vacuity -/
 
 /-- a mixed registry: http with a short and an endless request, a tcp tunnel that never ends, a gRPC server
@@ -263,5 +306,9 @@ example : (refresherTick false [":7000"] (exitHandler .stopsAtDeadline 100 600
 example : (refresherTicks true [":7000"] 3 (exitHandler .stopsAtDeadline 100 600
     { registry := [(":7000", .single { kind := .tcp, work := [none] })], shuttingDown := false }).1).registry = [] := by decide
 example : DeadlineBounded .stopsAtDeadline := repaired_contract_bounded
+-- the lock assumption: free lock ⇒ bounded from the call; a 10 000-tick hold ⇒ 10 000 ticks late
+example : shutdownCalled .stopsAtDeadline 100 100 600 exampleServers = some 700 := by decide
+example : shutdownCalled .stopsAtDeadline 100 10100 600 exampleServers = some 10700 := by decide
+example : (closeProxy ":7000" [(":7000", .single { kind := .tcp, work := [none] }), (":80", .single { kind := .http, work := [] })]).length = 1 := by decide
 
 end Fabio.Props.C18
